@@ -669,7 +669,32 @@ impl Drop for Server {
 /// construction or set later (also on a configuration first made for a resolver of the other address
 /// family, with the wildcard bind address following), explicit or wildcard bind address. Which sequence
 /// is used is a function of the header tokens, so a request line replays exactly.
+/// may this process bind a socket to the loopback device (`SO_BINDTODEVICE`, needs CAP_NET_RAW)?
+fn bind_device_ok() -> bool {
+    static OK: std::sync::OnceLock<bool> = std::sync::OnceLock::new();
+    *OK.get_or_init(|| unsafe {
+        let fd = libc::socket(libc::AF_INET, libc::SOCK_DGRAM, 0);
+        if fd < 0 {
+            return false;
+        }
+        let name = b"lo\0";
+        let rc = libc::setsockopt(fd, libc::SOL_SOCKET, libc::SO_BINDTODEVICE, name.as_ptr() as *const _, 3);
+        libc::close(fd);
+        rc == 0
+    })
+}
+
 fn build_cfg(h: &Hdr, addr: SocketAddr) -> ClientConfig {
+    let c = build_cfg_base(h, addr);
+    // rsdns' optional `socket2` feature: the tokio client builds its sockets by hand when a bind device
+    // is configured (one case in three, where the process is allowed to)
+    if h.rt == "tokio" && (h.order / 8) % 3 == 0 && bind_device_ok() {
+        return c.set_bind_device(Some("lo")).expect("bind device lo");
+    }
+    c
+}
+
+fn build_cfg_base(h: &Hdr, addr: SocketAddr) -> ClientConfig {
     let opts = |c: ClientConfig, part: u8| -> ClientConfig {
         // part 0: strategy + EDNS + recursion, part 1: buffer size + timers
         if part == 0 {
@@ -1629,7 +1654,11 @@ fn gen_c13(r: &mut Rng, index: u64) -> String {
             buf,
             drop: None,
             udp: vec![e0],
-            tcp: vec![if r.chance(1, 2) {
+            tcp: vec![if r.chance(1, 4) {
+                // the TCP answer takes longer than a per-attempt UDP timeout (and far less than the
+                // lifetime): the exchange that is under way must not be abandoned for a retransmission
+                vec![format!("p{}", h.qt.unwrap_or(400) + 150), tcp_framed("IIII", &tcp_tail)]
+            } else if r.chance(1, 2) {
                 vec![tcp_framed("IIII", &tcp_tail)]
             } else {
                 // the same answer in two segments with a pause in between (the cut lies behind the ID)
@@ -1681,6 +1710,9 @@ fn gen_c14(r: &mut Rng, index: u64) -> String {
     let via_udp = r.chance(1, 3);
     let mut h = plain_hdr(r, index, if via_udp { "udp" } else { "tcp" });
     h.edns = "off".to_string();
+    // `buffer_size` sizes the buffer of the typed queries only: whatever it is, a raw query is bounded
+    // by the caller's buffer alone
+    h.cfgbuf = *r.pick(&[65535usize, 65535, 512, 700, 0]);
     let udp_script: Vec<Vec<String>> = if via_udp {
         let fl = if r.chance(1, 2) { resp_flags(r, true) } else { 0x8380 };
         vec![vec![format!("IIII{}", hx(&msg_tail(fl, 1, 0, &q.question(false), &[])))]]
@@ -2165,7 +2197,17 @@ fn gen_c16(r: &mut Rng, index: u64) -> String {
                 // the late answer to the previous query may carry any flags, TC included
                 let dtc = r.chance(1, 2);
                 let dfl = if r.chance(1, 2) { resp_flags(r, dtc) } else { 0x8180 };
-                let dup = format!("PPPP{}", hx(&msg_tail(dfl, 1, 0, &p.question(false), &[])));
+                // one case in three: the earlier question's name merely *starts with* the labels of the
+                // current one (`example.co.uk` asked first, then `example.co`), and its late answer happens
+                // to carry the current ID (a 1-in-65536 collision, which a server on the path can force)
+                let plabels: Vec<&str> = p.qname.trim_end_matches('.').split('.').collect();
+                let collide = plabels.len() >= 2 && r.chance(1, 3);
+                if collide {
+                    q.qname = plabels[..r.range(1, plabels.len() as u64 - 1) as usize].join(".");
+                    q.qtype = p.qtype;
+                    q.qclass = p.qclass;
+                }
+                let dup = format!("{}{}", if collide { "IIII" } else { "PPPP" }, hx(&msg_tail(dfl, 1, 0, &p.question(false), &[])));
                 let n = r.range(1, 2);
                 if r.chance(1, 2) {
                     api = "rrset";
